@@ -395,6 +395,41 @@ func buildInputs(uniq string, r *rand.Rand, thorough bool) []Input {
 		time.Sleep(400 * time.Millisecond) // a few dispatch cycles
 		return InReply{Proto: "http", Err: rp.Err, Status: rp.Status, Body: clipName(string(rp.Body))}
 	}})
+	// a callback whose root promise does not exist (the API accepts it): its resume task is dispatched without a root
+	// promise to show
+	add(Input{Name: "seq:callback-with-unknown-root", Setup: func(s *Server) {
+		post(s, "/promises", map[string]any{"id": "ghostleaf-" + gid, "timeout": soon() + 3600000})
+		post(s, "/callbacks", map[string]any{"id": "ghostcb-" + gid, "promiseId": "ghostleaf-" + gid, "rootPromiseId": "no-such-root-" + gid, "timeout": soon() + 3600000, "recv": "poll://ghost" + gid + "/w"})
+	}, Send: func(s *Server) InReply {
+		rp := s.JSON("PATCH", "/promises/ghostleaf-"+gid, nil, map[string]any{"state": "RESOLVED"})
+		time.Sleep(500 * time.Millisecond) // a few dispatch cycles
+		return InReply{Proto: "http", Err: rp.Err, Status: rp.Status, Body: clipName(string(rp.Body))}
+	}})
+	// the poll transport's port is a client-facing HTTP endpoint too: hostile paths, methods and header sizes
+	for _, raw := range []string{"GET /%ff/w1", "GET /g/%ff%fe", "GET /%00/x", "GET /g/" + strings.Repeat("a", 70000), "GET //", "GET /g", "POST /g/w", "GET /../g/w", "GET /g/w?x=%zz", "GET /%e0%80%af/w", "GET /g%0d%0aX-Injected:%201/w"} {
+		raw := raw
+		name := raw
+		if len(name) > 40 {
+			name = name[:40] + "..."
+		}
+		add(Input{Name: "poll " + name, Send: func(s *Server) InReply {
+			conn, err := net.DialTimeout("tcp", s.pollAddr, 2*time.Second)
+			if err != nil {
+				return InReply{Proto: "http", Err: err}
+			}
+			defer conn.Close()
+			fmt.Fprintf(conn, "%s HTTP/1.1\r\nHost: x\r\nAccept: text/event-stream\r\n\r\n", raw)
+			_ = conn.SetReadDeadline(time.Now().Add(400 * time.Millisecond))
+			buf := make([]byte, 64)
+			n, _ := conn.Read(buf)
+			st := 200
+			if n >= 12 {
+				fmt.Sscanf(string(buf[9:12]), "%d", &st)
+			}
+			time.Sleep(100 * time.Millisecond)
+			return InReply{Proto: "http", Status: st % 500, Body: clipName(string(buf[:n]))} // the stream staying open is an answer too
+		}})
+	}
 	// cron descriptors that the parser library does not survive
 	for _, cr := range []string{"TZ=UTC", "CRON_TZ=UTC", "TZ=", "TZ=UTC ", "@every", "@every -1s", "@every 0s", "* * * * * * *", "60 * * * * *", "*/0 * * * *", "0-0/0 * * * *", "? ? ? ? ?", "L * * * *", "1,,2 * * * *", "TZ=Nowhere/Land * * * * *",
 		// well-formed expressions that never occur
